@@ -523,10 +523,10 @@ class Inliner:
             self.only_module_level = True
             try:
                 # purely syntactic normal forms are safe for hook classes too (no helper is moved)
-                return _return_temps(fn) + _filter_loops(fn) + _reduce_and_extend_loops(fn) + self._expr_helpers(r, fn)
+                return _exit_idioms(fn) + _return_temps(fn) + _filter_loops(fn) + _reduce_and_extend_loops(fn) + self._expr_helpers(r, fn)
             finally:
                 self.only_module_level = False
-        n = _return_temps(fn)
+        n = _exit_idioms(fn) + _return_temps(fn)
         n += _filter_loops(fn)
         n += _reduce_and_extend_loops(fn)
         n += _callable_choice(fn)
@@ -895,6 +895,31 @@ def _stmt_lists(node):
 
     rec(node.body)
     return out
+
+
+def _exit_idioms(fn: FuncInfo) -> int:
+    """`raise SystemExit(E)` is written `sys.exit(E)` (which is defined as exactly that raise); the raise is kept behind it as the
+    statement that ends the path, so the control flow is unchanged while rules that enumerate the process exits see one spelling."""
+    n = 0
+    for stmts in _stmt_lists(fn.node):
+        i = 0
+        while i < len(stmts):
+            st = stmts[i]
+            if isinstance(st, ast.Raise) and st.cause is None and isinstance(st.exc, ast.Call) and isinstance(st.exc.func, ast.Name) and st.exc.func.id == "SystemExit" \
+                    and len(st.exc.args) <= 1 and not st.exc.keywords and not getattr(st, "_exit_idiom", False):
+                call = ast.Expr(value=ast.Call(func=ast.Attribute(value=ast.Name(id="sys", ctx=ast.Load()), attr="exit", ctx=ast.Load()), args=list(st.exc.args), keywords=[]))
+                ast.copy_location(call, st)
+                ast.fix_missing_locations(call)
+                tail = ast.Raise(exc=ast.Name(id="SystemExit", ctx=ast.Load()), cause=None)
+                ast.copy_location(tail, st)
+                ast.fix_missing_locations(tail)
+                tail._exit_idiom = True
+                stmts[i:i + 1] = [call, tail]
+                n += 1
+                i += 2
+                continue
+            i += 1
+    return n
 
 
 def _return_temps(fn: FuncInfo) -> int:
